@@ -8,6 +8,8 @@ CONSTANTS
   GeCmp = FALSE
   AwaitStop = TRUE
   NotifyPop = TRUE
+  ReleaseOnEnd = TRUE
+  Faults = TRUE
   MaxOps = 2
   MaxCancel = 0
   Depth = 0
